@@ -402,8 +402,8 @@ def complete(ctx, prog, wa, cba, fparam, sinks, saves, closes):
                                                                          "lbry.blob.blob_file.BlobBuffer.__init__", "lbry.blob.blob_manager.BlobManager._get_blob"],
                    "completion callback", floor=2, module_prefix="lbry.blob")
     ue_f = ctx.fa(sq + ".<locals>.update_events")
-    t = [unparse(x) for x in ue_f.node.body]
-    ctx.ob("C01-D5/DEP", t == ["self.verified.set()", "self.writing.clear()"], ue_f.site(), "update_events sets verified and clears writing, unconditionally", func=ue_f.fi.qualname)
+    t = R.top_level_texts(ue_f)
+    ctx.ob("C01-D5/DEP", [x for x in t if x in ("self.verified.set()", "self.writing.clear()")] == ["self.verified.set()", "self.writing.clear()"], ue_f.site(), "update_events sets verified and clears writing, unconditionally", func=ue_f.fi.qualname)
     iw = ctx.fa(f"{ABS}.is_writeable")
     r = R.single_return_value(iw)
     ctx.ob("C01-D5/DEP", r is not None and unparse(r.value) == "not self.writing.is_set()", iw.site(), "writeable == no write in progress", func=iw.fi.qualname)
